@@ -8,7 +8,7 @@
 (*      uses N + (number of earlier encryptions and successful             *)
 (*      decryptions); a failed decryption leaves the stored nonce alone.   *)
 (* Inc is ApiAead!IncAt, the operator the trace spec uses with base 256.   *)
-EXTENDS ApiAead, Sym, TLC
+EXTENDS ApiAead, Sym, TLC, NonceClosed
 CONSTANTS B, D, MaxOps
 ASSUME B^D < 2000000
 
@@ -41,5 +41,7 @@ Spec == Init /\ [][Next]_vars
 IncIsPlusOne == mode = "all" => Val(Inc(n0)) = (Val(n0) + 1) % (B^D)
 StoredNonce  == Val(cur) = (Val(n0) + good) % (B^D)
 PacketNonce  == \A i \in 1..Len(used) : Val(used[i][1]) = (Val(n0) + used[i][2]) % (B^D)
-Inv == IncIsPlusOne /\ StoredNonce /\ PacketNonce
+\* the closed form that NonceInd proves for base 256 x 16 digits is the recursive operator of the trace spec
+ClosedIsRecursive == mode = "all" => IncClosedG(n0, D, B) = Inc(n0)
+Inv == IncIsPlusOne /\ StoredNonce /\ PacketNonce /\ ClosedIsRecursive
 =========================================================================
